@@ -26,6 +26,7 @@ type SpecEnv struct {
 	vars    map[string]Value
 	assume  bool // true: formula is being assumed (foralls become lazy), false: proved (skolemised)
 	neg     bool // polarity flipped
+	renameDepth int
 	ambig   bool // inside an operand of ==, !=, iff or an ite condition: no definite polarity
 	ctx     *Term
 	skolems []*Term
@@ -340,6 +341,14 @@ func (env *SpecEnv) ident(name string) Value {
 			return env.constObj(c)
 		}
 	}
+	// a parameter or local that was renamed since the contract was written: the name now
+	// declared at the same position
+	if nn, ok := env.ex.rename[name]; ok && nn != name && env.renameDepth < 2 {
+		env.ex.note("identifier %s of the contract resolved to %s (declaration renamed in %s)", name, nn, env.ex.fn)
+		n := *env
+		n.renameDepth++
+		return n.ident(nn)
+	}
 	specErr("unknown identifier %q", name)
 	return nil
 }
@@ -563,6 +572,11 @@ func (env *SpecEnv) loc(e ast.Expr) Loc {
 				g := env.ex.P.globalOf(obj)
 				return Loc{Kind: LGlobal, Glob: g.String(), Root: obj.Type(), Ty: obj.Type()}
 			}
+		}
+		if nn, ok := env.ex.rename[x.Name]; ok && nn != x.Name && env.renameDepth < 2 {
+			n := *env
+			n.renameDepth++
+			return n.loc(&ast.Ident{Name: nn})
 		}
 		specErr("identifier %s is not a location", x.Name)
 	case *ast.SelectorExpr:
